@@ -111,7 +111,7 @@ def inlined(facts, body, depth=MAX_DEPTH, skip=None, tag=None, sugar=False):
         t = b["term"]
         if b["cleanup"] or not t or t["k"] != "call" or dep >= depth:
             continue
-        if sg is not None and (sg.expand_simple(bi, dep, stack) or sg.expand_iter(bi, dep, stack)):
+        if sg is not None and (sg.expand_simple(bi, dep, stack) or sg.expand_iter(bi, dep, stack) or sg.expand_closure_call(bi, dep, stack)):
             continue
         target = t.get("res") if not t.get("virtual") else None
         cb = facts.body(target or "")
